@@ -1,5 +1,224 @@
-import MontePyVerif.Model.Write
+import MontePyVerif.Lemmas.Write
 import MontePyVerif.Spec.Blocks
+/-!
+# C15 — write_to_file never destroys or half-writes the destination
+
+Statements about `Model/Write.lean` (the repaired `MCNP_Problem.write_to_file` / `MCNP_InputFile`), for
+**every** problem (any number of objects, any of them raising), every prior state of the destination,
+either value of `overwrite`, and every fault plan (`Fault`: creating the temporary, the k-th
+`format_for_mcnp_input`, the k-th `fh.write` after any prefix of its text, close, `os.replace`,
+`_handle_warnings`).  The statement order of the writer and the guards of `open` come from the generated
+table `Gen/WriteOrder.lean`; the block-order theorems are judged by the independent reader `Spec/Blocks.lean`.
+-/
 namespace MontePyVerif.Write
-theorem C15_stub : True := trivial
+open MontePyVerif.Gen.WriteOrder (Seg)
+open MontePyVerif.Spec.Blocks
+
+/-! ## the two halves of `MCNP_InputFile`: open and exit -/
+
+theorem openW_cases (d : Dest) (ow : Bool) (plan : Fault) :
+    (∃ e, openW ⟨d, none⟩ ow plan = (⟨d, none⟩, some e)) ∨ openW ⟨d, none⟩ ow plan = (⟨d, some []⟩, none) := by
+  unfold openW fsCreateTmp
+  cases d <;> dsimp only <;> (repeat' split) <;> simp
+
+theorem exitW_spec (fs : FS) (exc : Option Err) (plan : Fault) :
+    (exitW fs exc plan).1.tmp = none ∧
+    ((exitW fs exc plan).2 ≠ none → (exitW fs exc plan).1.dest = fs.dest) ∧
+    ((exitW fs exc plan).2 = none → exc = none ∧ ∃ c, fs.tmp = some c ∧ (exitW fs exc plan).1.dest = .file c) := by
+  unfold exitW
+  split
+  · simp [fsRemoveTmp]
+  · split
+    · simp [fsRemoveTmp]
+    · split
+      · simp [fsRemoveTmp]
+      · split
+        · next fs' h =>
+          unfold fsReplace at h
+          split at h <;> simp_all
+          all_goals (subst h; simp)
+        · simp [fsRemoveTmp]
+
+/-- the core, for any statement sequence: no temporary is left; the destination is what it was, or the
+    complete text; a normal return means the complete text; an exception that is not raised by
+    `_handle_warnings` (i.e. after the commit) means the destination is what it was. -/
+theorem atomic_seq (seq : List Seg) (p : Problem) (d : Dest) (ow : Bool) (plan : Fault) :
+    (writeToFileSeq seq p ⟨d, none⟩ ow plan).2.tmp = none ∧
+    ((writeToFileSeq seq p ⟨d, none⟩ ow plan).2.dest = d ∨
+      ∃ out, complete p seq = some out ∧ (writeToFileSeq seq p ⟨d, none⟩ ow plan).2.dest = .file out) ∧
+    ((writeToFileSeq seq p ⟨d, none⟩ ow plan).1 = none →
+      ∃ out, complete p seq = some out ∧ (writeToFileSeq seq p ⟨d, none⟩ ow plan).2.dest = .file out) ∧
+    ((writeToFileSeq seq p ⟨d, none⟩ ow plan).1 ≠ none → (∀ e, plan ≠ .warn e) →
+      (writeToFileSeq seq p ⟨d, none⟩ ow plan).2.dest = d) := by
+  unfold writeToFileSeq
+  rcases openW_cases d ow plan with ⟨e, h⟩ | h
+  · rw [h]; simp
+  · rw [h]; dsimp only
+    generalize hr : runSeq plan p { fs := ⟨d, some []⟩, nfmt := 0, nwr := 0, lineno := 1 } seq = r
+    have hd : r.1.fs.dest = d := by rw [← hr, runSeq_dest]
+    have ⟨ht, herr, hok⟩ := exitW_spec r.1.fs r.2 plan
+    split
+    · next fs2 e hx =>
+      rw [hx] at ht herr
+      dsimp only at ht herr
+      have : fs2.dest = d := by rw [← hd]; exact herr (by simp)
+      simp [ht, this]
+    · next fs2 hx =>
+      rw [hx] at ht hok
+      dsimp only at ht hok
+      obtain ⟨hexc, c, hc, hdest⟩ := hok rfl
+      have hrun : runSeq plan p { fs := ⟨d, some []⟩, nfmt := 0, nwr := 0, lineno := 1 } seq = (r.1, none) := by
+        rw [hr, ← hexc]
+      obtain ⟨out, h1, h2, h3⟩ := runSeq_ok hrun (c := []) rfl
+      have hcomp : complete p seq = some out := by simp [complete, h1, h3]
+      have hfile : fs2.dest = .file out := by
+        rw [hdest]; rw [h2] at hc; simp at hc; rw [hc]
+      cases plan <;> simp [ht, hcomp, hfile]
+
+/-! ## the obligations of DESIGN.md section 6, C15 -/
+
+/-- a problem used for the non-vacuity examples: a message block, two cells, one surface, one data card,
+    one modifier card that goes to the data block -/
+def demo : Problem :=
+  { message := some (.lines ["MESSAGE: outp=o", ""]), title := .lines ["demo"],
+    cells := [.lines ["1 0 -1"], .lines ["2 0 1", "     imp:n=0"]], surfaces := [.lines ["1 so 1"]],
+    dataInputs := [.lines ["mode n"]], modifiers := [.lines ["imp:n 1 0"]] }
+
+/-- the same problem with a new cell that has no geometry (`validate()` raises IllegalState) -/
+def demoInvalid : Problem := { demo with cells := demo.cells ++ [.raises .illegalState] }
+
+def demoText : List String :=
+  ["MESSAGE: outp=o", "", "demo", "1 0 -1", "2 0 1", "     imp:n=0", "", "1 so 1", "", "mode n", "imp:n 1 0", ""]
+
+/-- **C15_guards** — the truth table of the guards: an existing file is not replaced without
+    `overwrite=True` (FileExistsError), a directory is never written to (IsADirectoryError); in both cases
+    nothing at all happens to the file system, whatever the problem and the fault plan. -/
+theorem C15_guards (p : Problem) (plan : Fault) :
+    (∀ c, writeToFile p ⟨.file c, none⟩ false plan = (some .fileExists, ⟨.file c, none⟩)) ∧
+    (∀ ow, writeToFile p ⟨.dir, none⟩ ow plan = (some .isADirectory, ⟨.dir, none⟩)) := by
+  constructor
+  · intro c
+    have : "FileExistsError" ∈ MontePyVerif.Gen.WriteOrder.openGuards := by decide
+    simp [writeToFile, writeToFileSeq, openW, this]
+  · intro ow
+    have : "IsADirectoryError" ∈ MontePyVerif.Gen.WriteOrder.openGuards := by decide
+    simp [writeToFile, writeToFileSeq, openW, this]
+
+example : writeToFile demo ⟨.file ["the original"], none⟩ false .none = (some .fileExists, ⟨.file ["the original"], none⟩) :=
+  (C15_guards demo .none).1 _
+
+/-- the statement of C15 at full strength -/
+def C15_atomic_statement : Prop :=
+  ∀ (p : Problem) (d : Dest) (ow : Bool) (plan : Fault),
+    ((writeToFile p ⟨d, none⟩ ow plan).2.dest = d ∨
+      ∃ out, render p = some out ∧ (writeToFile p ⟨d, none⟩ ow plan).2.dest = .file out) ∧
+    ((writeToFile p ⟨d, none⟩ ow plan).1 = none →
+      ∃ out, render p = some out ∧ (writeToFile p ⟨d, none⟩ ow plan).2.dest = .file out)
+
+/-- **C15_atomic** — for every problem, destination state, `overwrite` and fault plan: afterwards the
+    destination is exactly what it was or the complete text of the problem; and a call that returns
+    normally has left the complete text. -/
+theorem C15_atomic : C15_atomic_statement := by
+  intro p d ow plan
+  have h := atomic_seq MontePyVerif.Gen.WriteOrder.sequence p d ow plan
+  exact ⟨h.2.1, h.2.2.1⟩
+
+/-- **C15_no_temp_left** — on every path (normal return or any exception) no temporary file remains. -/
+theorem C15_no_temp_left (p : Problem) (d : Dest) (ow : Bool) (plan : Fault) :
+    (writeToFile p ⟨d, none⟩ ow plan).2.tmp = none :=
+  (atomic_seq MontePyVerif.Gen.WriteOrder.sequence p d ow plan).1
+
+/-- **C15_error_unchanged** — if the call raises (and the exception does not come from the warning
+    report that follows the commit) the destination is exactly what it was. -/
+theorem C15_error_unchanged (p : Problem) (d : Dest) (ow : Bool) (plan : Fault)
+    (herr : (writeToFile p ⟨d, none⟩ ow plan).1 ≠ none) (hw : ∀ e, plan ≠ .warn e) :
+    (writeToFile p ⟨d, none⟩ ow plan).2.dest = d :=
+  (atomic_seq MontePyVerif.Gen.WriteOrder.sequence p d ow plan).2.2.2 herr hw
+
+-- non-vacuity: an invalid new cell and an existing destination (the witness of the defect before the repair)
+example : writeToFile demoInvalid ⟨.file ["the original"], none⟩ true .none
+    = (some .illegalState, ⟨.file ["the original"], none⟩) := by decide
+-- a full disk in the middle of the sixth line
+example : writeToFile demo ⟨.file ["the original"], none⟩ true (.write 5 3)
+    = (some .osError, ⟨.file ["the original"], none⟩) := by decide
+-- a failure after the commit: the call raises, the destination is complete
+example : writeToFile demo ⟨.file ["the original"], none⟩ true (.warn (.other "AttributeError"))
+    = (some (.other "AttributeError"), ⟨.file demoText, none⟩) := by decide
+
+/-- **C15_complete_when_no_fault** — the writer does write: with no fault, a destination that passes
+    the guards and a problem whose objects all format, the call returns normally and the destination is
+    the complete text (so `C15_atomic` is not satisfied by never committing). -/
+theorem C15_complete_when_no_fault (p : Problem) (d : Dest) (ow : Bool) (out : List String)
+    (hd : d = .absent ∨ (∃ c, d = .file c) ∧ ow = true) (h : render p = some out) :
+    writeToFile p ⟨d, none⟩ ow .none = (none, ⟨.file out, none⟩) := by
+  unfold render complete at h
+  split at h
+  · next out' hr =>
+    split at h
+    · next henc =>
+      cases h
+      have hopen : openW ⟨d, none⟩ ow .none = (⟨d, some []⟩, none) := by
+        rcases hd with rfl | ⟨⟨c, rfl⟩, rfl⟩ <;> simp [openW, fsCreateTmp]
+      obtain ⟨w', hrun⟩ := runSeq_none p { fs := ⟨d, some []⟩, nfmt := 0, nwr := 0, lineno := 1 }
+        MontePyVerif.Gen.WriteOrder.sequence out hr henc
+      obtain ⟨o2, h1, h2, -⟩ := runSeq_ok hrun (c := []) rfl
+      have ho : o2 = out := by rw [hr] at h1; exact (Option.some.inj h1).symm
+      subst ho
+      have hdest : w'.fs.dest = d := by
+        have := runSeq_dest .none p { fs := ⟨d, some []⟩, nfmt := 0, nwr := 0, lineno := 1 } MontePyVerif.Gen.WriteOrder.sequence
+        rw [hrun] at this; exact this
+      have hfs : w'.fs = ⟨d, some o2⟩ := by
+        cases hw : w'.fs with
+        | mk dd tt => rw [hw] at hdest h2; simp at hdest h2; simp [hdest, h2]
+      have hexit : exitW w'.fs none .none = (⟨.file o2, none⟩, none) := by
+        rw [hfs]
+        rcases hd with rfl | ⟨⟨c, rfl⟩, rfl⟩ <;> simp [exitW, fsReplace]
+      simp only [writeToFile, writeToFileSeq, hopen, hrun, hexit]
+    · cases h
+  · cases h
+
+example : writeToFile demo ⟨.file ["the original"], none⟩ true .none = (none, ⟨.file demoText, none⟩) :=
+  C15_complete_when_no_fault demo _ true demoText (Or.inr ⟨⟨_, rfl⟩, rfl⟩) (by decide)
+
+/-! ## histories: any sequence of calls on the same path -/
+
+structure Call where
+  problem : Problem
+  overwrite : Bool
+  plan : Fault
+
+/-- the user's script: one `write_to_file` after the other on the same path -/
+def runHistory (fs : FS) : List Call → FS
+  | [] => fs
+  | c :: t => runHistory (writeToFile c.problem fs c.overwrite c.plan).2 t
+
+/-- **C15_history** — after any history of calls (each with its own problem, flag and fault) the
+    destination is what it was at the start or the complete text of one of the problems written, and no
+    temporary file is left. -/
+theorem C15_history (calls : List Call) (d : Dest) :
+    (runHistory ⟨d, none⟩ calls).tmp = none ∧
+    ((runHistory ⟨d, none⟩ calls).dest = d ∨
+      ∃ c ∈ calls, ∃ out, render c.problem = some out ∧ (runHistory ⟨d, none⟩ calls).dest = .file out) := by
+  induction calls generalizing d with
+  | nil => exact ⟨rfl, Or.inl rfl⟩
+  | cons c t ih =>
+    simp only [runHistory]
+    have htmp := C15_no_temp_left c.problem d c.overwrite c.plan
+    have hat := (C15_atomic c.problem d c.overwrite c.plan).1
+    generalize hfs : (writeToFile c.problem ⟨d, none⟩ c.overwrite c.plan).2 = fs at htmp hat
+    obtain ⟨d', t'⟩ := fs
+    simp only at htmp hat
+    subst htmp
+    obtain ⟨h1, h2⟩ := ih d'
+    refine ⟨h1, ?_⟩
+    rcases h2 with h2 | ⟨c', hc', out, ho, hd'⟩
+    · rcases hat with hat | ⟨out, ho, hd'⟩
+      · left; rw [h2, hat]
+      · right; exact ⟨c, by simp, out, ho, by rw [h2, hd']⟩
+    · right; exact ⟨c', by simp [hc'], out, ho, hd'⟩
+
+example : (runHistory ⟨.absent, none⟩
+    [⟨demo, false, .none⟩, ⟨demoInvalid, true, .none⟩, ⟨demo, false, .none⟩, ⟨demo, true, .write 2 1⟩]).dest
+    = .file demoText := by decide
+
 end MontePyVerif.Write
